@@ -404,6 +404,17 @@ def _conv(name_, src_, dst_):
     return type("Conv_" + name_, (Conv,), {"name": name_, "src": src_, "dst": dst_})
 
 
+def _accessors(p):
+    """The property accessors of the point itself (no conversion): the same views, field by field."""
+    cal, ordn, week = p.get_calendar_date(), p.get_ordinal_date(), p.get_week_date()
+    got = (p.month_of_year, p.day_of_month, p.day_of_year, p.week_of_year, p.day_of_week)
+    want = (cal[1], cal[2], ordn[1], week[1], week[2])
+    if got != want:
+        return "MISMATCH accessors (month_of_year, day_of_month, day_of_year, week_of_year, day_of_week) = %r, " \
+               "get_* say %r" % (got, want)
+    return None
+
+
 class TPViews(CalOp):
     """TimePoint.to_calendar_date / to_ordinal_date / to_week_date and the get_* accessors must
     agree with the module-level conversions (objects expose the same views)."""
@@ -448,6 +459,10 @@ class TPViews(CalOp):
             return "MISMATCH get_* %r vs to_* %r" % (parts, objs)
         if not (c.get_is_calendar_date() and o.get_is_ordinal_date() and w.get_is_week_date()):
             return "MISMATCH representation flags"
+        for q in (p, c, o, w):
+            bad = _accessors(q)
+            if bad:
+                return bad
         return " | ".join(parts)
 
     def oracle(self, a, out):
@@ -493,6 +508,9 @@ class TPViewsZ(CalOp):
                 _fmt((w.year, w.week_of_year, w.day_of_week))]
         if parts != objs:
             return "MISMATCH get_* %r vs to_* %r" % (parts, objs)
+        bad = _accessors(p)
+        if bad:
+            return bad
         return " | ".join(parts)
 
     def oracle(self, a, out):
